@@ -533,6 +533,37 @@ class C17(Prop):
                 return False, f"{k} depends on the read history: {a[k]} vs {b[k]}"
             if not _same(before, data):
                 return False, "caller's dict modified"
+            # the object holds the values it was *given*: what the caller does with its own dict afterwards (adding,
+            # dropping, replacing top-level keys) does not show in an object built before, validated or not
+            later = {"summary": "added later", "requires_python": ">=99", "requires_dist": ["###"], "author": "later",
+                     "keywords": ["later"], "license_expression": "not a license !", "provides_extra": ["Not_Normal"]}
+
+            def reads(m):
+                out = {}
+                for k in G.FIELDS:
+                    try:
+                        out[k] = "v" + canon(getattr(m, k))
+                    except Exception as e:
+                        out[k] = "e" + type(e).__name__ + ":" + str(getattr(e, "field", ""))
+                return out
+            for validate in (True, False):
+                mine = copy.deepcopy(before)
+                try:
+                    m = M.Metadata.from_raw(mine, validate=validate)
+                    ref = M.Metadata.from_raw(copy.deepcopy(before), validate=validate)
+                except Exception:
+                    continue
+                for k, v in later.items():
+                    if k not in mine and rng.random() < 0.7:
+                        mine[k] = v
+                for k in list(mine):
+                    if k not in later and rng.random() < 0.3:
+                        del mine[k]
+                ra, rb = reads(m), reads(ref)
+                if ra != rb:
+                    k = next(k for k in G.FIELDS if ra[k] != rb[k])
+                    return False, (f"Metadata.from_raw(d, validate={validate}).{k} reads {ra[k]} after the caller changed its own dict "
+                                   f"to {mine!r}; an object built from the same values reads {rb[k]}")
             return True, ""
         if law == "from_email_reports":
             from props.C18 import ANY, expected_parse
